@@ -184,11 +184,14 @@ class C07(Prop):
                   "changes nothing. Entry and paragraph level separately (C07_rebuild_value, C07_entry, C07_entry_idem, C07_paragraph, C07_paragraph_idem). "
                   "With a formatter (C07_formatter, C07_formatter_idem, C07_identity_formatter, C07_formatter_tokens): for formatters whose output is "
                   "`shaped` (no CR, no empty/indented/'#' continuation line) the same clauses with 'exactly the lines of the formatter's output'; "
-                  "idempotence under the explicit premise that a second field step is a no-op (discharged for the identity formatter). The shipped code "
+                  "idempotence under the explicit premise that a second field step is a no-op, discharged for the identity formatter and for every formatter "
+                  "that absorbs the re-layout, which the Uploaders formatter of format_field is proved to be (C07_absorbing_formatter_idem, "
+                  "C07_uploaders_absorbing); Control::wrap_and_sort is the deb822-level reformatting with control order and the control formatter "
+                  "(C07_control). The shipped code "
                   "is refuted (C07_shipped_refuted, C07_repairs_needed, C07_shipped_witnesses, C07_moved_paragraph, C07_formatter_lines, "
                   "C07_build_conflicts_arch). PARTIAL: documents that are error-free but outside Grammar.wf_doc (CR line ends, blank or comment lines "
-                  "inside a value, whitespace before the colon), formatters with unshaped output, the Uploaders/relations formatter of the control "
-                  "wrappers and Source/Binary/Control::wrap_and_sort are covered by the correspondence streams and the oracle only.")
+                  "inside a value, whitespace before the colon), formatters with unshaped output, the relations branch of the control formatter (a "
+                  "parameter) and Source/Binary::wrap_and_sort are covered by the correspondence streams and the oracle only.")
     level_note = ("Model: Entry/Paragraph/Deb822::wrap_and_sort, rebuild_value, inject (src/lossless.rs), lex_inline (src/lex.rs), format_field and "
                   "Control/Source/Binary::wrap_and_sort (debian-control/src/lossless/control.rs; the relations branch is a parameter fed with the "
                   "implementation's own values). `./check C07` evaluates the model of the REPAIRED code: on the unchanged /repo it reports the defects "
